@@ -143,50 +143,46 @@ theorem skip_limit_eq_slice (n : Int) (docs : List Val) :
       (if 0 < n then .ok (docs.take n.toNat) else .error .opFail) :=
   ⟨Pipe.Proofs.skipStage_int n docs, Pipe.Proofs.limitStage_int n docs⟩
 
-/-- … and an argument that is not an integer (a boolean, a double, a string, null, …) is refused -/
-theorem skip_limit_rejects (o : Val) (docs : List Val) (h : ∀ n, o ≠ .int n) :
-    Pipe.skipStage o docs = .error .opFail ∧ Pipe.limitStage o docs = .error .opFail :=
-  ⟨Pipe.Proofs.skipStage_nonint o docs h, Pipe.Proofs.limitStage_nonint o docs h⟩
+/-- … a double that holds a whole number is read as that integer (`$limit: 2.0` keeps two
+    documents), and an argument that denotes no integer (a boolean, a fraction, a string, null,
+    …) is refused -/
+theorem skip_limit_count (o : Val) (docs : List Val) :
+    (∀ n, sliceCount o = some n →
+      Pipe.skipStage o docs = Pipe.skipStage (.int n) docs ∧
+      Pipe.limitStage o docs = Pipe.limitStage (.int n) docs) ∧
+    (sliceCount o = none →
+      Pipe.skipStage o docs = .error .opFail ∧ Pipe.limitStage o docs = .error .opFail) := by
+  refine ⟨fun n h => ?_, fun h => ?_⟩
+  · have hc := (Pipe.Proofs.stageCount_eq_spec o).trans h
+    exact ⟨by rw [Pipe.Proofs.skipStage_count o n docs hc, Pipe.Proofs.skipStage_int],
+           by rw [Pipe.Proofs.limitStage_count o n docs hc, Pipe.Proofs.limitStage_int]⟩
+  · have hc := (Pipe.Proofs.stageCount_eq_spec o).trans h
+    exact ⟨Pipe.Proofs.skipStage_nocount o docs hc, Pipe.Proofs.limitStage_nocount o docs hc⟩
 
-example : ∀ n, Val.bool true ≠ .int n := by intro n h; cases h
+example : sliceCount (.dbl 2 0) = some 2 ∧ sliceCount (.dbl 6 1) = some 3 ∧
+    sliceCount (.dbl 5 1) = none ∧ sliceCount (.bool true) = none ∧ sliceCount (.str "1") = none := by
+  decide +kernel
 
 theorem skip_limit_infix (o : Val) (docs out : List Val) :
     (Pipe.skipStage o docs = .ok out → out <:+ docs) ∧
     (Pipe.limitStage o docs = .ok out → out <+: docs) :=
   ⟨Pipe.Proofs.skipStage_suffix o docs out, Pipe.Proofs.limitStage_prefix o docs out⟩
 
-/-- **skip_limit_eq_spec (partial).** For every argument that is not a double the oracle speaks
-    — documents, or REJECTED (`Spec.Pipe.argRejected`: not an integer, a negative `$skip`, a
-    `$limit` that is not positive) — and the handler answers accordingly, error cases included.
-    (A double is the remaining class `limitdouble`.) -/
-theorem skip_limit_eq_spec_partial (db : Pipe.Db) (op : String) (o : Val) (docs : List Val)
-    (hop : op = "$skip" ∨ op = "$limit") (h : ∀ m e, o ≠ .dbl m e) :
+/-- **skip_limit_eq_spec.** For EVERY argument the oracle speaks — documents, or REJECTED
+    (`Spec.Pipe.argRejected`: no integer and no whole-number double, a negative `$skip`, a `$limit`
+    that is not positive) — and the handler answers accordingly, error cases included.  (Full
+    strength: the class `limitdouble` went with its repair.) -/
+theorem skip_limit_eq_spec (db : Pipe.Db) (op : String) (o : Val) (docs : List Val)
+    (hop : op = "$skip" ∨ op = "$limit") :
     ∃ v, specStageV op o docs = some v ∧ v.agrees (Pipe.simpleStage db op o docs) := by
-  obtain ⟨⟨v, hv⟩, hD⟩ := Pipe.Proofs.slice_spec_total op o docs hop h
+  obtain ⟨⟨v, hv⟩, hD⟩ := Pipe.Proofs.slice_spec_total op o docs hop
   exact ⟨v, hv, Pipe.Proofs.stageV_eq_spec db op o docs v hD hv⟩
 
-example : (∀ m e, Val.int (-1) ≠ .dbl m e) ∧ (∀ m e, Val.str "1" ≠ .dbl m e) := by
-  constructor <;> intro m e h <;> cases h
-
-def agreeVB : R (List Val) → Option Verdict → Bool
-  | .ok a, some (.docs b) => beqList a b
-  | .error _, some .rejected => true
-  | _, none => true
-  | _, _ => false
-
-/-- the full-strength statement: whatever the argument, the handler follows the oracle's verdict -/
-def skip_limit_eq_spec_full : Prop :=
-  ∀ (o : Val) (docs : List Val),
-    agreeVB (Pipe.skipStage o docs) (specStageV "$skip" o docs) = true ∧
-    agreeVB (Pipe.limitStage o docs) (specStageV "$limit" o docs) = true
-
-/-- False of the code as it stands (known finding `limitdouble`): `$limit: 2.0` is refused (the
-    handler wants a Python `int`); MongoDB takes a double without fraction as the integer. -/
-theorem skip_limit_eq_spec_full_fails : ¬ skip_limit_eq_spec_full := by
-  intro h
-  have := (h (.dbl 2 0) [.doc [("_id", .int 0)], .doc [("_id", .int 1)], .doc [("_id", .int 2)]]).2
-  revert this
-  decide +kernel
+/-- the former witness of `limitdouble`: `$limit: 2.0` keeps two documents -/
+example : (match Pipe.limitStage (.dbl 2 0) sample with
+    | .ok out => out.length == 2 | .error _ => false) = true ∧
+    isOk (Pipe.skipStage (.dbl 0 0) sample) = true ∧
+    isOk (Pipe.limitStage (.dbl 5 1) sample) = false := by decide +kernel
 
 /-- **count_eq_length.** `$count: name` answers one document `{name: len(input)}` — the number
     `count_documents({})` computes (`countDocuments n 0 absent = n`) — and NO document when there
@@ -583,6 +579,43 @@ example : pipelineReasonsV [.doc [("$unwind", .str "$l")], .doc [("$skip", .int 
 
 def optDocsAre' (l r : List Val) : Bool := beqList l r
 
+/-- **aggregate_normalises_pipeline.** `Collection.aggregate` hands the stages the pipeline with
+    every datetime written in it read as UTC milliseconds, naive — the form of the stored ones
+    (`Pipe.normPipeline` = `patch` of every stage): the normalised pipeline holds stored-form
+    datetimes only, normalising twice changes nothing, and a pipeline already in that form is
+    run as it is. -/
+theorem aggregate_normalises_pipeline (db : Pipe.Db) (coll : String) (stages : List Val) :
+    Pipe.aggregate db coll (.arr stages) =
+      Pipe.runPipeline db (Pipe.normPipeline stages) (db.get coll) ∧
+    (∀ st ∈ Pipe.normPipeline stages, normalV st = true) ∧
+    Pipe.normPipeline (Pipe.normPipeline stages) = Pipe.normPipeline stages ∧
+    ((∀ st ∈ stages, normalV st = true) → Pipe.normPipeline stages = stages) :=
+  ⟨rfl, Pipe.Proofs.normPipeline_normal stages, Pipe.Proofs.normPipeline_idem stages,
+   Pipe.Proofs.normPipeline_fixes stages⟩
+
+/-- an aware datetime with microseconds in `$addFields` / `$match` is the stored millisecond -/
+example : beqList (Pipe.normPipeline
+      [.doc [("$addFields", .doc [("t2", .date 1577856600123456 (some 330))])],
+       .doc [("$match", .doc [("t", .doc [("$gte", .date 1577836800000999 none)])])]])
+      [.doc [("$addFields", .doc [("t2", .date 1577836800123000 none)])],
+       .doc [("$match", .doc [("t", .doc [("$gte", .date 1577836800000000 none)])])]] = true := by
+  decide +kernel
+
+/-- **aggregate_eq_spec (on D).** The entry point against the oracle's verdict: `aggregate`
+    answers what the oracle says about the pipeline AS THE SERVER IS SENT IT (datetimes
+    normalised), on the stored documents of the collection. -/
+theorem aggregate_eq_spec_partial (db : Pipe.Db) (coll : String) (stages : List Val) (v : Verdict)
+    (hD : pipelineReasonsV (Pipe.normPipeline stages) (db.get coll) = [])
+    (hs : specPipelineV (Pipe.normPipeline stages) (db.get coll) = some v) :
+    v.agrees (Pipe.aggregate db coll (.arr stages)) :=
+  Pipe.Proofs.pipelineV_eq_spec db (Pipe.normPipeline stages) (db.get coll) v hD hs
+
+example : pipelineReasonsV (Pipe.normPipeline [.doc [("$match", .doc [("a", .doc [("$gt", .int 2)])])],
+      .doc [("$limit", .dbl 2 0)]]) (db.get "c") = [] ∧
+    (match specPipelineV (Pipe.normPipeline [.doc [("$match", .doc [("a", .doc [("$gt", .int 2)])])],
+      .doc [("$limit", .dbl 2 0)]]) (db.get "c") with
+     | some (.docs out) => out.length == 2 | _ => false) = true := by decide +kernel
+
 def agreeB : R (List Val) → Option (List Val) → Bool
   | .ok a, some b => beqList a b
   | .error _, some _ => false
@@ -593,13 +626,14 @@ def stage_eq_spec_full : Prop :=
   ∀ (op : String) (opts : Val) (docs : List Val),
     agreeB (Pipe.simpleStage ⟨[]⟩ op opts docs) (specStage op opts docs) = true
 
-/-- False of the code as it stands — no longer through `$count` over no documents (`countempty`,
-    repaired), but through the known finding `limitdouble`: `$limit: 2.0` is refused where the
-    oracle keeps two documents (and, beyond this property's own classes, through the findings of
-    the query rules the `$match` oracle is built from, e.g. C01 `boolnum`). -/
+/-- False of the code as it stands — no longer through a class of this property's own
+    (`countempty`, `limitdouble` are repaired: on `$skip` / `$limit` / `$count` / `$unwind` the
+    handler IS the oracle, see `skip_limit_eq_spec`, `count_eq_spec`, `unwind_eq_spec`), but
+    through the findings of the rules the other oracles are built from: C01 `boolnum`, `{a: 1}`
+    selects `{a: true}` (Python `==`). -/
 theorem stage_eq_spec_full_fails : ¬ stage_eq_spec_full := by
   intro h
-  have := h "$limit" (.dbl 2 0) [.doc [("_id", .int 0)]]
+  have := h "$match" (.doc [("a", .int 1)]) [.doc [("a", .bool true)]]
   revert this
   decide +kernel
 
